@@ -66,6 +66,9 @@ func AcceptOrdinalSaleListing2Dummies(ctx context.Context, vla *ValidateListingA
 	if err != nil {
 		return nil, err
 	}
+	if enough, err := tx.EstimateIsFeePaidEnough(asoa.FQ); err != nil || !enough { //nolint:govet // shadow
+		return nil, bt.ErrInsufficientFees
+	}
 
 	//nolint:dupl // TODO: are 2 dummies useful or to be removed?
 	for i, u := range asoa.UTXOs {
